@@ -4,6 +4,7 @@ import math
 import numpy as np
 from hypothesis import strategies as st
 
+from checks import observe
 from checks.common import S, Raised, call, diameter, get, maxnorm, perm_from_noise, tol_scale
 from gen import poly as gp
 from gen import zoo
@@ -22,14 +23,14 @@ K = 1e4
 def _case3(draw, decades=1.0):
     r = None if draw(st.integers(0, 9)) == 0 else draw(st.sampled_from([-3.0, -2.5, -2.0, -1.5, -1.0, -0.5, 0.0, 0.5, 1.0, 1.5, 2.0])) + draw(zoo.f(-0.25, 0.25))
     return {"cvx": draw(zoo.convex3d(max_n=24, kinds=("ellipsoid", "lattice", "prismatoid", "tabulated", "roofed"))), "place": draw(zoo.placement(max_offset=5.0, scale_decades=decades)), "logr": r,
-            "perm": draw(zoo.noise(64))}
+            "perm": draw(zoo.noise(64)), "twin32": draw(st.integers(0, 5)) == 0}
 
 
 @st.composite
 def _case2(draw, decades=0.0):
     r = None if draw(st.integers(0, 9)) == 0 else draw(st.sampled_from([-3.0, -2.5, -2.0, -1.5, -1.0, -0.5, 0.0, 0.5, 1.0, 1.5, 2.0])) + draw(zoo.f(-0.25, 0.25))
     return {"poly": draw(gp.simple_polygon(max_n=20, kinds=("convex",))), "emb": draw(gp.embedding()), "logr": r,
-            "perm": draw(zoo.noise(32)), "logs": draw(st.sampled_from([k / 2.0 for k in range(-int(2 * decades), 13)])) if decades else 0.0}
+            "perm": draw(zoo.noise(32)), "twin32": draw(st.integers(0, 5)) == 0, "logs": draw(st.sampled_from([k / 2.0 for k in range(-int(2 * decades), 13)])) if decades else 0.0}
 
 
 def mean_curvature_oracle(V, facets, nrm):
@@ -93,6 +94,9 @@ def _poly3(case, rec):
     if isinstance(Sp, Raised):
         rec.fail("construct", dict(sig, type=Sp.type), msg=Sp.msg)
         return
+    if case.get("twin32"):
+        observe.dtype_twin(rec, S.ConvexPolyhedron, V, (), sig, True)
+        observe.dtype_twin(rec, S.ConvexSpheropolyhedron, V, (r,), sig, True)
     wantV = vol + area * r + 4 * math.pi * M * r * r + 4 / 3 * math.pi * r**3
     wantS = area + 8 * math.pi * M * r + 4 * math.pi * r * r
     tolV = T["vol"] + T["area"] * r + 4 * math.pi * tM * r * r + 1e-10 * wantV
@@ -135,6 +139,9 @@ def _poly2(case, rec):
     if isinstance(Sp, Raised):
         rec.fail("construct", dict(sig, type=Sp.type), msg=Sp.msg)
         return
+    if case.get("twin32") and inplane:
+        observe.dtype_twin(rec, S.ConvexSpheropolygon, V[:, :2] if arg is None else V, (r,) if arg is None else (r, argc), sig, False)
+        observe.dtype_twin(rec, S.ConvexPolygon, V[:, :2] if arg is None else V, () if arg is None else (argc,), sig, False)
     wantA = A + Pm * r + math.pi * r * r
     rec.close("sphero_area", get(Sp, "area"), wantA, tA + tP * r + 1e-10 * wantA, sig)
     core = get(Sp, "polygon")
